@@ -225,7 +225,7 @@ fn judge(r: &mut Report, rig: &Rig, endpoint: &'static str, position: &str, clas
 
 pub fn run(args: &Args, report: &mut Report) {
     let thorough = args.tier.is_thorough();
-    let rigs = [Rig::new(Options::default), Rig::new(|| Options { request_chunk: 1, response_chunk: 1 })];
+    let rigs = [Rig::new(Options::default), Rig::new(|| Options { request_chunk: 1, response_chunk: 1 }), Rig::new(|| Options { request_chunk: 2 | crate::loopback::WITH_EMPTY_CHUNKS, response_chunk: 2 | crate::loopback::WITH_EMPTY_CHUNKS })];
     let mut all: Vec<String> = ascii_strings();
     all.extend(boundary_strings());
     all.extend(pair_strings(if thorough { "%+/?#&= .~:;@!$'()*,[]\\\"<>{}|^`" } else { "%+/?#&= " }));
